@@ -3,8 +3,9 @@
 # Confirms a seeded change (compiles, existing tests pass, demo fails with / passes without) in a private copy
 # of /repo and runs the named checks against it. Prints one summary line per step. Leaves /repo untouched.
 set -u
+ROOT=$(cd "$(dirname "$0")/.." && pwd)
 name="$1"; patch="$2"; demo="$3"; tier="$4"; shift 4
-d=$(/verif/tools/mutant_sandbox.sh "$name")
+d=$("$ROOT/tools/mutant_sandbox.sh" "$name")
 cd "$d/repo"
 export CARGO_TARGET_DIR="$d/repo_target"
 if [ "$demo" != "-" ]; then
@@ -19,7 +20,7 @@ if [ "$demo" != "-" ]; then
 fi
 if cargo test --workspace --no-fail-fast --offline >"$d/tests.log" 2>&1; then echo "existing-tests: PASS"; else echo "existing-tests: FAIL"; grep -E "^test .* FAILED|panicked" "$d/tests.log" | head -5; fi
 unset CARGO_TARGET_DIR
-cd /verif
+cd "$ROOT"
 for p in "$@"; do
   out=$(VERIF_HARNESS="$d/harness" ./check "$p" "$tier" 2>&1)
   rc=$?
